@@ -45,7 +45,7 @@ func suite(quick bool) hlib.Suite {
 				continue
 			}
 			peaks := []time.Duration{0, R / 4, R / 2, 14 * R / 24, R - f}
-			sigmas := []time.Duration{f, 3 * f, R / 10, R / 4, R, 10 * R}
+			sigmas := []time.Duration{f, 3 * f, R / 10, R / 4, R, 10 * R, 100 * R, 1000 * R, 10000 * R}
 			for _, vol := range volumes {
 				for _, peak := range peaks {
 					peak = peak.Truncate(f) // a tick exists exactly at the peak
@@ -66,7 +66,7 @@ func suite(quick bool) hlib.Suite {
 				}
 			}
 		}
-		r.Sample(map[string]any{"volumes": volumes, "windows": fmt.Sprint(windows), "weights": fmt.Sprint(weights), "peaks": "0,R/4,R/2,14R/24,R-f", "sigmas": "f,3f,R/10,R/4,R,10R"})
+		r.Sample(map[string]any{"volumes": volumes, "windows": fmt.Sprint(windows), "weights": fmt.Sprint(weights), "peaks": "0,R/4,R/2,14R/24,R-f", "sigmas": "f,3f,R/10,R/4,R,10R,100R,1000R,10000R"})
 	}}
 }
 
